@@ -96,6 +96,15 @@ CHECKS = {
              "inserted at a random place: loading or the first use of the name must raise.",
         note="Generated contexts are exercised by C11/C12. Units added via define() are not asked for compatible-unit listings (known finding of C13).",
         design="5/C10"),
+    "C11": dict(
+        technique="Hypothesis over bundled and randomly generated contexts (rule graphs with monomial equations, parameters, overlapping rules, redefinitions) x activation forms x stacks; reference oracle = own BFS over dimension vectors (all shortest chains, recency precedence) with exact evaluation of the rule equations using factors from an independent definition reader",
+        text="For each bundled context (incl. Gaussian/ESU in a float tier) and for random stacks of up to four generated contexts with deliberately inconsistent "
+             "rational constants, a quantity is converted between units of linked dimensionalities through every activation form (with-block, enable/disable, "
+             "contexts passed to to()/ito(), decorator, nested blocks, alias, Context object). The result must equal the exact value of some shortest chain found "
+             "by the oracle's BFS with the most recently enabled rule per edge, unreachable targets must raise DimensionalityError, same-dimension conversions are "
+             "unchanged, no context may stay active. Redefinitions must apply to the unit and its dependants exactly while active (also nested and with keywords).",
+        note="Parameter inheritance with several enclosing contexts that disagree is under-specified by the statement: skipped and counted.",
+        design="5/C11"),
     "C20": dict(
         technique="complete enumeration of an independently curated table of ~260 standard values x spellings x {Fraction, float} registries (differential oracle: the table)",
         text="Each entry of data/standards.txt (SI and binary prefixes, SI units, defining constants, yard/pound multiples, US/imperial capacity, avoirdupois/"
